@@ -24,6 +24,7 @@ RULE = (
     "  For half of the cases a further selection / calculation is then requested ON THE PROCESSED TREE with a random preferred engine, processed and executed again: the rows must be the model's rows of the whole sequence. "
     "  In 30 % of the cases the first process() call is one in which the k-th hook call fails (injected fault): only materializations completed before the failure may have gained payloads, and the passes that follow must still yield the model's rows. "
     "  15 % of the cases chain the tree with a second build of the same program (equal but distinct transfer / materialization objects with the same names over the same leaves). "
+    "  3 % directed cases: a materialized chain of a SQL leaf and an empty transfer, joined to a left- or right-nested join that reads the same leaf, processed three times. "
 )
 ASSUMPTIONS = [
     "reference model vmon/model.py; SQLite + SQLAlchemy execute the SQL parts; grammar shim as in C02",
@@ -51,6 +52,27 @@ def gen_case(rng, tier):
         sort_then_slice_prob=0.4,
     )
     g = gen.Gen(rng, cfg)
+    if rng.random() < 0.03:
+        # directed: a materialized chain of a SQL leaf T and an empty transfer (the Processor prunes the
+        # empty branch: the materialization ends up reading T's own table), joined to an operand that
+        # reads T as well - left- or right-nested - and processed several times
+        g.cfg.special_leaves = False
+        T_ = g.leaf("sql", want_cols=sorted(rng.sample("abc", 2)), allow_special=False)
+        tcols = sorted(T_[1])
+        g.leaves["LD"] = {"engine": rng.choice(["it", "it2"]), "cols": tcols, "rows": [], "kind": "doomed"}
+        U_ = g.leaf("sql", want_cols=[tcols[0]], allow_special=False)
+        V_ = g.leaf("sql", want_cols=[tcols[-1]], allow_special=False)
+        empty = ["xfer", ["leaf", "LD"], "sql"]
+        m = ["mat", ["chain", T_[0], empty] if rng.random() < 0.5 else ["chain", empty, T_[0]], "MM"]
+        inner = ["join", T_[0], V_[0], None, None] if rng.random() < 0.5 else ["join", V_[0], T_[0], None, None]
+        nested = ["join", U_[0], inner, None, None] if rng.random() < 0.6 else ["join", inner, U_[0], None, None]
+        root = ["join", nested, m, None, None] if rng.random() < 0.5 else ["join", m, nested, None, None]
+        allc = frozenset(T_[1] | U_[1] | V_[1])
+        if not any(c in "xyz" for c in allc):
+            case = gen.case_from(g, (root, allc, "sql"))
+            case["repeats"] = 3
+            case["directed"] = "pruned_materialization_and_nested_join"
+            return case
     case = gen.case_from(g, g.tree())
     case["repeats"] = rng.choice([1, 1, 2, 3])
     if rng.random() < 0.15:
